@@ -150,6 +150,12 @@ static void Handle(const json& c, vh::Report& r) {
     if (On("C03")) {
       if (ok == sbad) r.Violation("C03", ok ? "accepted-but-rules-reject" : "rejected-but-rules-accept", wit, { {"impl", ty}, {"spec", sty} });
       else if (ok && ty != sty) r.Violation("C03", "typification", wit, { {"impl", ty}, {"spec", sty} });
+      // the value-class audit of an accepted expression: value / property / improper use of a property
+      if (ok && !sbad && ty == sty && c.contains("vc")) {
+        const bool vok = auditor->CheckValue();
+        const std::string vc = !vok ? "invalid" : auditor->GetValueClass() == ValueClass::value ? "value" : auditor->GetValueClass() == ValueClass::props ? "props" : "invalid";
+        if (vc != c["vc"].get<std::string>()) r.Violation("C03", "value-class", wit, { {"impl", vc}, {"spec", c["vc"]} });
+      }
       if (!ok) {   // an ill-typed expression is rejected with >= 1 critical error positioned inside the expression
         bool critical = false, inside = true; const int len = syn == Syntax::MATH ? static_cast<int>(vh::CodePoints(text).size()) : static_cast<int>(text.size());
         for (const auto& e : auditor->Errors().All()) { if (e.IsCritical()) critical = true; if (e.position < 0 || e.position > len) inside = false; }
